@@ -290,17 +290,48 @@ func c09(p *P) {
 			r.Undecided("C09.R6", "certstore.Store.GetPowerTable: shape", fmt.Sprintf("expected one readPowerTable/GetRange/ApplyPowerTableDiffs, found %d/%d/%d", len(rd), len(gr), len(ap)))
 		} else {
 			start := rd[0].ArgValues()[2]
+			// semantic form of max(x − x % frequency, first): on every case of the start value (max builtin, or an
+			// if/phi spelling) it is one of the two operands and the case's conditions entail it is the larger one
 			okStart := false
-			if mx, ok := start.(*ssa.Call); ok {
-				if b, isB := mx.Call.Value.(*ssa.Builtin); isB && b.Name() == "max" && len(mx.Call.Args) == 2 {
-					for i, a := range mx.Call.Args {
-						o := mx.Call.Args[1-i]
-						if sub, ok := a.(*ssa.BinOp); ok && sub.Op == token.SUB && canon(sub.X) == "$2" {
-							if rem, ok := sub.Y.(*ssa.BinOp); ok && rem.Op == token.REM && canon(rem.X) == "$2" && canon(rem.Y) == "$0.powerTableFrequency" && canon(o) == "$0.firstInstance" {
-								okStart = true
+			var remV ssa.Value
+			allValues(g, func(v ssa.Value) {
+				if b, ok := v.(*ssa.BinOp); ok && b.Op == token.REM && canon(b.X) == "$2" && canon(b.Y) == "$0.powerTableFrequency" {
+					remV = b
+				}
+			})
+			var firstV ssa.Value
+			allValues(g, func(v ssa.Value) {
+				if canon(v) == "$0.firstInstance" {
+					if _, isAddr := v.(*ssa.FieldAddr); !isAddr {
+						firstV = v
+					}
+				}
+			})
+			if remV != nil && firstV != nil {
+				aLin := linOf(g.Params[2]).add(linOf(remV), -1)
+				fLin := linOf(firstV)
+				okStart = true
+				nCases := 0
+				for _, c0 := range casesRaw(start, hypsAt(rd[0].Instr.Block()), 3) {
+					for _, c := range expandMinMax(c0, false) {
+						nCases++
+						l := c.lin(c.V)
+						switch {
+						case l.equal(aLin):
+							if ok, _ := entails(c.Hyps, fLin.add(aLin, -1)); !ok {
+								okStart = false
 							}
+						case l.equal(fLin):
+							if ok, _ := entails(c.Hyps, aLin.add(fLin, -1)); !ok {
+								okStart = false
+							}
+						default:
+							okStart = false
 						}
 					}
+				}
+				if nCases < 2 {
+					okStart = false
 				}
 			}
 			r.Check(okStart, "C09.R5", "certstore.Store.GetPowerTable: starts from checkpoint max(x − x % frequency, first)", p.c.InstrPos(rd[0].Instr), canon(start), "checkpoint looked up at "+canon(start)+" — disagrees with the writer's (x % frequency == 0) rule")
@@ -369,8 +400,39 @@ func c09(p *P) {
 	// R5: creators write power(first)
 	for _, name := range []string{"certstore.CreateStore", "certstore.OpenOrCreateStore"} {
 		if fn := p.fn("C09.R5", name); fn != nil {
+			type ptCall struct {
+				inst, table, where string
+			}
+			var found []ptCall
 			for _, cs := range callsTo(fn, false, "certstore.Store.putPowerTable") {
-				r.Check(cs.Arg(2) == "$2" && (cs.Arg(3) == "$3" || strings.HasSuffix(cs.Arg(3), ":gpbft.PowerEntries")), "C09.R5", name+": initial table stored at the first instance", p.c.InstrPos(cs.Instr), cs.Arg(2), "initial table stored at "+cs.Arg(2)+" / "+cs.Arg(3))
+				found = append(found, ptCall{cs.Arg(2), cs.Arg(3), p.c.InstrPos(cs.Instr)})
+			}
+			// … or inside a shared unexported helper: its parameters stand for the creator's arguments
+			for _, site := range callSites(fn, false) {
+				h := site.Common.StaticCallee()
+				if h == nil || h.Blocks == nil || !strings.HasPrefix(funcName(h), "certstore.") || funcName(h) == "certstore.open" || funcName(h) == "certstore.Store.putPowerTable" || isInlined(callOf(site.Instr)) != nil {
+					continue
+				}
+				if n := h.Name(); n == "" || (n[0] >= 'A' && n[0] <= 'Z') {
+					continue
+				}
+				bind := func(v ssa.Value) string {
+					if pr, ok := v.(*ssa.Parameter); ok {
+						for i, q := range h.Params {
+							if q == pr && i < len(site.Common.Args) {
+								return canon(site.Common.Args[i])
+							}
+						}
+					}
+					return canon(v)
+				}
+				for _, cs := range callsTo(h, false, "certstore.Store.putPowerTable") {
+					a := cs.ArgValues()
+					found = append(found, ptCall{bind(a[2]), bind(a[3]), p.c.InstrPos(cs.Instr)})
+				}
+			}
+			for _, c := range found {
+				r.Check(c.inst == "$2" && (c.table == "$3" || strings.HasSuffix(c.table, ":gpbft.PowerEntries")), "C09.R5", name+": initial table stored at the first instance", c.where, c.inst, "initial table stored at "+c.inst+" / "+c.table)
 			}
 		}
 	}
